@@ -1,7 +1,7 @@
 //! C08: name / object path validators. Exhaustive short strings over a representative alphabet,
 //! every Unicode scalar value in first and later position, length boundaries; through
 //! params::validate_*, ObjectPath::new and the header name checks of wire::marshal::marshal.
-use crate::common::*;
+use vcore::common::*;
 use rustbus::message_builder::{MarshalledMessage, MessageBuilder};
 use rustbus::params;
 use rustbus::wire::ObjectPath;
